@@ -15,9 +15,26 @@
 (*                                                                                              *)
 (* Where the property statement does not pin the outcome down the operators return the SET of   *)
 (* outcomes the statement admits (named deviations ConstLimit, NoValidObservation below).       *)
+(*                                                                                              *)
+(* ONLY NaN is missing.  Every other float is an observation - also the strange ones, which get  *)
+(* symbolic codes below (Specials): they are never filled, never rewritten, and ffill / bfill    *)
+(* copy them like any other value.  No operator of this module looks inside a value, so all of   *)
+(* them are treated alike by construction (data independence; MC_FillX checks it as a law).      *)
 EXTENDS Integers, Sequences, FiniteSets
 
 NaN == -1
+\* symbolic codes of non-missing floats that are easily mistaken for "no value"
+PInf    == -2      \* +inf
+NInf    == -3      \* -inf
+NegZero == -4      \* -0.0 (equal to 0 as a number, a different cell)
+Huge    == -5      \* the largest finite double (what np.nan_to_num writes for +inf)
+NegHuge == -6      \* the most negative finite double
+Tiny    == -7      \* the smallest positive subnormal
+Half    == -8      \* 0.5: a fraction
+NegFrac == -9      \* -3.5: a negative fraction
+Specials == {PInf, NInf, NegZero, Huge, NegHuge, Tiny, Half, NegFrac}
+\* codes <= -1000 stand for the negative integers: NegInt(k) is the float -k (k >= 1)
+NegInt(k) == -1000 - k
 
 NRows(f) == Len(f.rows)
 NCols(f) == Len(f.cols)
@@ -114,6 +131,45 @@ NonaFn(f, edge) == IF edge = 0 THEN Nona(f) ELSE IF edge = 1 THEN Lnna(f) ELSE F
 \* Named deviation ArrayIgnoresEdge: `edge` is no part of the property statement (nor of its
 \* quantifier); on a numpy array (no index to cut at) nona ignores it and removes every all-NaN row.
 NonaFnArray(f, edge) == {Nona(f), NonaFn(f, edge)}
+
+\* ---------------------------------------------------------------------------------------------
+\* the function nona(x, value = v, edge): "removes rows that are entirely nan (or a specific other
+\* value)".  Every NaN - however the caller spells it - asks for the rows that are entirely NaN; a
+\* number asks for the rows all of whose cells EQUAL that number (0 = -0.0 as numbers, NaN equals
+\* nothing).  The cells of the rows that stay are never touched.
+\* ---------------------------------------------------------------------------------------------
+SameNumber(c, v) == c # NaN /\ (c = v \/ {c, v} = {0, NegZero})
+IsInfinite(c)    == c \in {PInf, NInf}
+\* Gone(i): row i counts as removable; edge = 0: every such row, 1: only the trailing ones, -1: only the leading ones
+DropRows(f, Gone(_), edge) ==
+    IF edge = 0 THEN KeepRows(f, LAMBDA i : ~Gone(i))
+    ELSE IF edge = 1 THEN KeepRows(f, LAMBDA i : \E k \in i..NRows(f) : ~Gone(k))
+    ELSE KeepRows(f, LAMBDA i : \E k \in 1..i : ~Gone(k))
+NonaValue(f, v, edge) ==
+    IF v = NaN THEN DropRows(f, LAMBDA i : AllNaN(f, i), edge)
+    ELSE DropRows(f, LAMBDA i : \A j \in 1..NCols(f) : SameNumber(f.cols[j][i], v), edge)
+\* Named deviation InfEitherSign: the statement says nothing about value = +-inf; the code takes either infinity
+\* as "the infinite rows" (np.isinf).  Rows entirely equal to v and rows entirely infinite are both accepted.
+NonaInfinite(f, edge) == DropRows(f, LAMBDA i : \A j \in 1..NCols(f) : IsInfinite(f.cols[j][i]), edge)
+NonaValueOutcomes(f, v, edge) ==
+    IF IsInfinite(v) THEN {NonaValue(f, v, edge), NonaInfinite(f, edge)} ELSE {NonaValue(f, v, edge)}
+\* on an array: ArrayIgnoresEdge as above
+NonaValueArray(f, v, edge) == NonaValueOutcomes(f, v, edge) \cup NonaValueOutcomes(f, v, 0)
+
+\* ---------------------------------------------------------------------------------------------
+\* sessions: several calls on the caller's objects.  A call is a function of the CONTENTS of its
+\* arguments as the caller wrote them and modifies none of them - neither the data ("the input
+\* object is not modified") nor the method list ("a list of methods applies them in sequence" holds
+\* for every call, not only for the first one with that list object).
+\* The session state is [x: the input object, m: the shared method-list object, prev: the frames the
+\* statement admits as the latest result].  A call c = [src, obj, ms, lim]:
+\*    src = "x": on the input object, "prev": on the object returned by the previous call
+\*    obj = "M": the shared list object is passed, otherwise a fresh list c.ms
+\* ---------------------------------------------------------------------------------------------
+SessInit(x, m) == [x |-> x, m |-> m, prev |-> {x}]
+CallMethods(st, c) == IF c.obj = "M" THEN st.m ELSE c.ms
+CallInputs(st, c)  == IF c.src = "x" THEN {st.x} ELSE st.prev
+SessCall(st, c) == [st EXCEPT !.prev = UNION {Fillna(g, CallMethods(st, c), c.lim) : g \in CallInputs(st, c)}]
 
 \* ---------------------------------------------------------------------------------------------
 \* mechanism: the single forward scan with a carried value and a run counter (what pandas'
